@@ -12,7 +12,11 @@ VARIABLE c
 Init == c \in { r \in [kind : Kinds, renamed : BOOLEAN, prefix : Prefixes, second_renamed : BOOLEAN, mode : Modes, elsewhere : Elsewheres,
                         svname : SvNames, ident : Idents] :
                   /\ r.ident # "Target" => (r.elsewhere = "none" /\ r.svname = "Sv" /\ r.mode = "single")
-                  /\ r.elsewhere # "none" => r.mode = "folder"
+                  /\ (r.elsewhere \notin {"none", "module_twin"} => r.mode = "folder")
+                  \* module_twin: the SAME file has, in a nested module, another typeshared type with the target's Rust identifier
+                  \* carrying its own serde(rename). The references under test are written in the outer module and designate the
+                  \* outer type (Rust name resolution), so the required name does not change.
+                  /\ (r.elsewhere = "module_twin" => (r.mode = "single" /\ r.kind = "struct" /\ r.ident = "Target" /\ ~r.second_renamed))
                   /\ r.svname # "Sv" => (r.kind = "struct" /\ r.elsewhere = "none" /\ ~r.second_renamed) }
 Next == UNCHANGED c
 \* ident: the Rust identifier of the target. Protocol / Type are reserved words of Swift (the backend escapes them with back-ticks,
